@@ -81,6 +81,11 @@ func (t *tr) loopItems(m mark, outer map[string]*binding) []*litem {
 			if sameVal(nv, ob.v) {
 				continue // x = x.Op(..): the same pointer
 			}
+			if oc := ob.v.c; oc != nil && (isListTy(oc.ty) || oc.origin == oLocal) && len(t.holders(oc, outer, e.v)) > 0 {
+				// (carried as a VALUE, the variable would lose its alias with the other holder:
+				// shared element pointers after append, or the same integer when no iteration runs)
+				t.fail("the loop re-binds %s while %s refers to the same storage", e.v, t.holders(oc, outer, e.v)[0])
+			}
 			out = append(out, t.varItem(e.v, ob.v, nv, m))
 		}
 	}
